@@ -202,6 +202,18 @@ func init() {
 			refCase.Files = files
 			pcs = append(pcs, inline, refCase)
 			metas = append(metas, pairMeta{form, defNames})
+			if form == "$defs" && len(files) == 0 {
+				// the same reference form with a stale legacy "definitions" block next to "$defs" (same names, other content)
+				staleRoot := sgen.DeepCopy(refRoot).(M)
+				if addStaleDefinitions(staleRoot) {
+					in2 := *inline
+					st := baseCase("c10-ref-$defs+stale-definitions", staleRoot, docs)
+					st.Cfg = cfg
+					st.SchemaID = "urn:main"
+					pcs = append(pcs, &in2, st)
+					metas = append(metas, pairMeta{"$defs+stale-definitions", nil})
+				}
+			}
 		}
 		// recursion
 		recSchemas := map[string]M{
